@@ -2,11 +2,13 @@
 import functools, json, random as pyrandom, traceback
 from harness.lib import tr as trlib
 from harness.props import geno_gen as G
+from harness.translators import evo_src
 
 META = dict(
     id='C14',
     model_run='PG.Model.EvoRun.run',
     model_targets=['Model/EvoRun.vo'],
+    instance_obligations=['source pins (Gen/EvoSrc.v): the 57 classes / functions of pyglove/ext/evolution transcribed by Model/Evo*.v have the fingerprints the model was written against (harness/translators/evo_src.py, fail-closed, re-checked every run)'],
     technique=('Coq proof over an executable model of the evolution operators (structured DNA decisions of the Geno model; populations of '
                'identified individuals; an expression type for the composition algebra with an evaluator) + differential correspondence with a '
                'RECORDED PRNG (every draw of the real random.Random is logged and replayed by the model) + direct oracle on the real objects'),
@@ -37,6 +39,10 @@ META = dict(
 )
 
 # ------------------------------------------------------------------------------------------------
+def REPO_DIR():
+  from harness.lib.common import REPO
+  return REPO
+
 def lib():
   import pyglove as pg
   from pyglove.ext.evolution import base, mutators, recombinators, selectors, where
@@ -827,7 +833,12 @@ CORPUS = [
     for sd in range(1, 7) for pk in (0, 1, 2)
 ]
 
+GENERATED = {'Gen/EvoSrc.v': evo_src.translate}
+
 def run(ctx):
+  info = ctx.regen('Gen/EvoSrc.v', evo_src.translate)
+  src_changed = [] if info is not None else evo_src.changed(REPO_DIR())
+  ctx.extra['source_pins'] = dict(pinned=len(evo_src.PINS), changed=src_changed)
   ctx.build()
   rng = ctx.rng
   cases = []
@@ -940,9 +951,15 @@ def run(ctx):
   chain_search(ctx, rng, rng.sample(chain_specs, ctx.scale(6, len(chain_specs))), CHAIN_OPS[2:], ctx.scale(1, 8), left(ctx.scale(15, 40)), 'always/recombinators')
   # targeted: when the correspondence of a randomised operator broke and nothing failed yet, chain the operators of the
   # disagreeing cases on their own specifications (and on the sparse family) over many seeds and generations
-  if ctx.is_broken() and not ctx.hits and bad:
+  if ctx.is_broken() and not ctx.hits and (bad or src_changed):
     import time
     targets, seen_t = [], set()
+    # the operators whose pinned source changed, on the sparse / dense constrained family
+    wanted = set(n for k in src_changed for n in evo_src.EXERCISED_BY.get(k, []))
+    for e in [P(x) for x in ([[1, [0, NW_ALL]], [1, [1, NW_ALL]]] + [[2, r] for r in ([0, 0, [0], 0], [0, 1, [1, 1], 1], [0, 2, [0], 0], [0, 3, [0], 1], [1, 2], [2, [1]], [3, 0, [0]], [3, 1, [0]], [3, 2, [0]])])]:
+      if set(prim_names(e)) & wanted:
+        for sp in rng.sample(chain_specs, 3) + ([perm_specs(rng)] if e[1][1][0] == 3 else []):
+          targets.append((sp, e))
     for i in bad:
       d = descr[i]
       for e in [x for x in all_prims(d['expr']) if x[1][0] in (1, 2)]:
